@@ -7,7 +7,9 @@
 // observe ; Commit` up to the tier's bounds and every straight token sequence up to the tier's depth
 // over mutators + {Snapshot, Revert, Finalise, IntermediateRoot, Commit+reopen, Copy}, plus the deep,
 // narrow stage E3 "incarnations" (one address, 13 tokens, depth 6/7) aimed at the destruct / re-create /
-// IntermediateRoot interplay of the storage tiers. See DESIGN.md section 4 / C08 and the `rule` written
+// IntermediateRoot interplay of the storage tiers, and E4 "multi-transaction slot histories" (one account,
+// 10 tokens, depth 7/8, fresh and committed slot) aimed at writes to one slot spread over several
+// transactions of a block with nested snapshots. See DESIGN.md section 4 / C08 and the `rule` written
 // into the evidence.
 package main
 
